@@ -79,7 +79,9 @@ type held struct {
 	from string
 }
 
-func pat(id, i int) byte { return byte(vlib.Mix(uint64(id)*0x9e37+uint64(i>>3)) >> (8 * (uint(i) & 7))) }
+func pat(id, i int) byte {
+	return byte(vlib.Mix(uint64(id)*0x9e37+uint64(i>>3)) >> (8 * (uint(i) & 7)))
+}
 
 func fill(b []byte, id int) {
 	b = b[:cap(b)]
